@@ -389,7 +389,7 @@ where
     rec.sample(|| serde_json::to_value(c).unwrap());
 }
 
-fn fam_v<B: Bk>(run: &mut Run)
+pub fn fam_v<B: Bk>(run: &mut Run)
 where
     Module<B>: HalAll<B>,
 {
@@ -403,7 +403,7 @@ where
     );
 }
 
-fn fam_d<B: Bk>(run: &mut Run)
+pub fn fam_d<B: Bk>(run: &mut Run)
 where
     Module<B>: HalAll<B>,
 {
@@ -509,7 +509,7 @@ where
     rec.sample(|| serde_json::to_value(c).unwrap());
 }
 
-fn fam_hist<B: Bk>(run: &mut Run)
+pub fn fam_hist<B: Bk>(run: &mut Run)
 where
     Module<B>: HalAll<B>,
 {
